@@ -23,7 +23,30 @@ def prove(hyps, goal, timeout_ms=10000, want_model=True):
     if r == z3.unsat:
         return {"status": "unsat", "backend": "z3", "time": dt}
     if r == z3.sat:
-        return {"status": "sat", "backend": "z3", "time": dt, "model": s.model() if want_model else None}
+        m = s.model()
+        bad = _model_violates(m, hyps, goal)
+        if bad is None:
+            return {"status": "sat", "backend": "z3", "time": dt, "model": m if want_model else None}
+        # z3's sequence solver occasionally answers `sat` with an assignment that does not satisfy the query (seen with nested
+        # if-then-else under concatenation).  Such an answer is NOT a counter-model: retry with the term-ite eliminated, then other seeds.
+        for attempt in range(3):
+            s3 = z3.Then("simplify", "elim-term-ite", "solve-eqs", "smt").solver() if attempt == 0 else z3.Solver()
+            s3.set("timeout", timeout_ms)
+            if attempt > 0:
+                s3.set("random_seed", 17 * attempt)
+            for h in hyps:
+                s3.add(h)
+            s3.add(z3.Not(goal))
+            r3 = s3.check()
+            if r3 == z3.unsat:
+                return {"status": "unsat", "backend": "z3-retry", "time": time.time() - t0}
+            if r3 == z3.sat and _model_violates(s3.model(), hyps, goal) is None:
+                return {"status": "sat", "backend": "z3-retry", "time": time.time() - t0, "model": s3.model() if want_model else None}
+        if USE_CVC5:
+            c = cvc5_check(s, timeout_ms)
+            if c == "unsat":
+                return {"status": "unsat", "backend": "cvc5", "time": time.time() - t0}
+        return {"status": "unknown", "backend": "z3", "time": time.time() - t0, "reason": f"z3 answered sat with an assignment that does not satisfy the query ({bad}); retries inconclusive"}
     reason = s.reason_unknown()
     # length relaxation: Length(t) of every sequence term becomes a free non-negative integer. Unsat of the relaxation
     # implies unsat of the query (it only forgets constraints); a model of it is a *candidate* (lengths only).
@@ -44,6 +67,21 @@ def prove(hyps, goal, timeout_ms=10000, want_model=True):
         if c == "unsat":
             return {"status": "unsat", "backend": "cvc5", "time": time.time() - t0}
     return {"status": "unknown", "backend": "z3+cvc5" if USE_CVC5 else "z3", "time": time.time() - t0, "reason": reason}
+
+
+def _model_violates(m, hyps, goal):
+    """None if the model satisfies every hypothesis and falsifies the goal (as far as evaluation can tell); else a description."""
+    try:
+        g = m.eval(goal, model_completion=True)
+        if z3.is_true(g):
+            return "the goal evaluates to true under it"
+        for h in hyps:
+            v = m.eval(h, model_completion=True)
+            if z3.is_false(v):
+                return "a hypothesis evaluates to false under it: " + str(h)[:120].replace("\n", " ")
+    except Exception as e:  # evaluation is best effort
+        return None
+    return None
 
 
 def cvc5_check(solver, timeout_ms):
